@@ -128,6 +128,10 @@ fn gen_value(rng: &mut Rng) -> String {
 
 fn gen_meta11(rng: &mut Rng, w: u64) -> Meta {
     let mut m = Meta::new();
+    // documents without any metadata are part of every NOT / match-all / empty-AND selection
+    if rng.chance(1, 8) {
+        return m;
+    }
     m.insert("w".into(), w.to_string());
     for k in KEYS {
         if rng.chance(3, 4) {
@@ -225,7 +229,12 @@ pub fn gen_plan(seed: u64, run: u64, tier: &str) -> Plan {
             if rng.chance(1, 3) {
                 m.insert("w".into(), w.to_string());
             }
-            OpK::UpdateMeta { id, meta: m, merge: rng.chance(2, 3) }
+            if rng.chance(1, 10) {
+                // replace with the empty map
+                OpK::UpdateMeta { id, meta: Meta::new(), merge: false }
+            } else {
+                OpK::UpdateMeta { id, meta: m, merge: rng.chance(2, 3) }
+            }
         } else if r < 67 {
             OpK::Delete { id }
         } else if r < 72 {
